@@ -138,11 +138,50 @@ impl<'a, 'b> H<'a, 'b> {
                     ((self.name(j), guard), "include-cycle")
                 }
             }
-            5 => ((self.name(x), format!("{}{}", self.current[x], tag("include \"nope.html\""))), "unknown-include"),
-            6 => ((self.name(x), format!("{}{}", self.current[x], var("1 | no_such_filter"))), "unknown-filter"),
-            7 => ((self.name(x), format!("{}{}{}", self.current[x], tag("if 1 is no_such_test"), tag("endif"))), "unknown-test"),
-            8 => ((self.name(x), format!("{}{}", self.current[x], var("no_such_fn()"))), "unknown-function"),
-            9 => ((self.name(x), format!("{}{}", self.current[x], var("<NoSuchComp/>"))), "unknown-component"),
+            5..=9 => {
+                // an unknown reference of one of the five kinds, written in one of the syntactic
+                // positions where references can occur (C07: "wherever it is used")
+                let (label, expr, stmt): (&'static str, Option<&str>, Option<String>) = match kind {
+                    5 => ("unknown-include", None, Some(tag("include \"nope.html\""))),
+                    6 => ("unknown-filter", Some("1 | no_such_filter"), None),
+                    7 => ("unknown-test", Some("1 is no_such_test"), None),
+                    8 => ("unknown-function", Some("no_such_fn()"), None),
+                    _ => ("unknown-component", Some("<NoSuchComp/>"), None),
+                };
+                let u = self.rng.below(1000);
+                // the reference as a statement
+                let as_stmt = |e: Option<&str>, st: &Option<String>| -> String {
+                    match (e, st) {
+                        (Some(e), _) => var(e),
+                        (_, Some(s)) => s.clone(),
+                        _ => String::new(),
+                    }
+                };
+                let pos = self.rng.below(11);
+                let snippet = match (pos, expr) {
+                    // plain statement at top level
+                    (0, _) => as_stmt(expr, &stmt),
+                    // inside a component definition body (+ a call, so it also runs)
+                    (1, _) | (2, _) => format!("{}{}{}{}", tag(&format!("component ZZc{}()", u)), as_stmt(expr, &stmt), tag("endcomponent"), if pos == 1 { var(&format!("<ZZc{}/>", u)) } else { String::new() }),
+                    // inside for / if bodies
+                    (3, _) => format!("{}{}{}", tag("for zz in [1]"), as_stmt(expr, &stmt), tag("endfor")),
+                    (4, _) => format!("{}{}{}{}", tag("if false"), tag("else"), as_stmt(expr, &stmt), tag("endif")),
+                    // inside a filter section / set block body / component call body
+                    (5, _) => format!("{}{}{}", tag("filter upper"), as_stmt(expr, &stmt), tag("endfilter")),
+                    (6, _) => format!("{}{}{}", tag("set zzv"), as_stmt(expr, &stmt), tag("endset")),
+                    // as the filter of a set-block filter chain / of a filter section
+                    (7, Some(_)) if kind == 6 => format!("{}x{}", tag("set zzv | upper | no_such_filter"), tag("endset")),
+                    (8, Some(_)) if kind == 6 => format!("{}x{}", tag("filter no_such_filter"), tag("endfilter")),
+                    // inside an argument expression
+                    (7, Some(e)) | (8, Some(e)) => var(&format!("1 | default(value={})", if kind == 9 { "2".to_string() } else { format!("({})", e) })),
+                    (9, Some(e)) if kind != 9 => var(&format!("range(end=({}))", if kind == 7 { "3 if 1 is no_such_test else 2" } else { e })),
+                    (10, Some(e)) => format!("{} {} {}", tag(&format!("set zzv = [{}, 2]", e)), var("zzv"), ""),
+                    _ => as_stmt(expr, &stmt),
+                };
+                // make sure the reference really is in the snippet (argument forms for kind 9 fall back)
+                let snippet = if (kind == 9 && !snippet.contains("NoSuchComp")) { var("<NoSuchComp/>") } else { snippet };
+                ((self.name(x), format!("{}{}", self.current[x], snippet)), label)
+            }
             10 => {
                 // duplicate component at equal priority (priority 0 = no fallback prefix)
                 let prio0: Vec<String> = self.g.world.comps.iter().filter(|c| !self.g.cfg.prefixes.iter().any(|p| self.g.world.info[c.tpl].name.starts_with(p.as_str()))).map(|c| c.name.clone()).collect();
